@@ -963,10 +963,8 @@ func (c *Compiler) compileCall(node *ast.Call) error {
 	if err := c.compile(node.Function()); err != nil {
 		return err
 	}
-	for _, arg := range args {
-		if err := c.compile(arg); err != nil {
-			return err
-		}
+	if err := c.compileArgs(args); err != nil {
+		return err
 	}
 	if c.current.pipeActive {
 		c.emit(op.Partial, uint16(argc))
@@ -992,10 +990,8 @@ func (c *Compiler) compileObjectCall(node *ast.ObjectCall) error {
 	if argc > MaxArgs {
 		return fmt.Errorf("compile error: max args limit of %d exceeded (got %d)", MaxArgs, argc)
 	}
-	for _, arg := range args {
-		if err := c.compile(arg); err != nil {
-			return err
-		}
+	if err := c.compileArgs(args); err != nil {
+		return err
 	}
 	if c.current.pipeActive {
 		c.emit(op.Partial, uint16(len(args)))
@@ -1978,6 +1974,20 @@ func (c *Compiler) compileDeferStmt(node *ast.Defer) error {
 	return nil
 }
 
+// compileArgs compiles the arguments of a call. Each argument must leave
+// exactly one value on the stack, so statements are rejected here.
+func (c *Compiler) compileArgs(args []ast.Node) error {
+	for _, arg := range args {
+		if !arg.IsExpression() {
+			return c.formatError("invalid argument: expected an expression", arg.Token().StartPosition)
+		}
+		if err := c.compile(arg); err != nil {
+			return err
+		}
+	}
+	return nil
+}
+
 func (c *Compiler) compilePartial(call *ast.Call) error {
 	args := call.Arguments()
 	argc := len(args)
@@ -1987,10 +1997,8 @@ func (c *Compiler) compilePartial(call *ast.Call) error {
 	if err := c.compile(call.Function()); err != nil {
 		return err
 	}
-	for _, arg := range args {
-		if err := c.compile(arg); err != nil {
-			return err
-		}
+	if err := c.compileArgs(args); err != nil {
+		return err
 	}
 	c.emit(op.Partial, uint16(argc))
 	return nil
@@ -2012,10 +2020,8 @@ func (c *Compiler) compilePartialObjectCall(node *ast.ObjectCall) error {
 	if argc > MaxArgs {
 		return fmt.Errorf("compile error: max args limit of %d exceeded (got %d)", MaxArgs, argc)
 	}
-	for _, arg := range args {
-		if err := c.compile(arg); err != nil {
-			return err
-		}
+	if err := c.compileArgs(args); err != nil {
+		return err
 	}
 	c.emit(op.Partial, uint16(len(args)))
 	return nil
